@@ -10,8 +10,8 @@ namespace Orx.IW
 /-- ticket currently held by a thread, if any: (begin, len) -/
 def Pc.ticket : Pc → Option (Nat × Nat)
   | .idle | .skp | .resv _ => none
-  | .pre r b | .wait r b | .chk r b | .setC r b => some (b, r.len)
-  | .cs r b _ | .ins r b _ | .pub r b _ => some (b, r.len)
+  | .pre r b | .wait r b | .chk r b | .ent r b => some (b, r.len)
+  | .cs r b _ | .ins r b _ | .pub r b _ | .setC r b _ => some (b, r.len)
   | .unw b n | .dead b n => some (b, n)
 
 /-- inside the critical section (between winning the ticket and publishing / giving up) -/
@@ -25,7 +25,7 @@ def Pc.inNext : Pc → Bool
   | _ => false
 
 def Pc.acc : Pc → List Nat
-  | .cs _ _ a | .ins _ _ a | .pub _ _ a => a
+  | .cs _ _ a | .ins _ _ a | .pub _ _ a | .setC _ _ a => a
   | _ => []
 
 def ReqOk (r : Req) : Prop := r = .skip ∨ 1 ≤ r.len
@@ -37,8 +37,14 @@ def IsSome : SrcRes → Prop
 /-- every call before the `p`-th returned an element -/
 def NoNoneBefore (s : Script) (p : Nat) : Prop := ∀ i, i < p → IsSome (s i)
 
-/-- once the wrapped iterator stopped yielding it never yields again -/
+/-- once the wrapped iterator stopped yielding it never yields again (NOT needed by the invariants: the protocol
+never polls the iterator again after a `None`; kept to relate positions and elements of fused iterators) -/
 def Fused (s : Script) : Prop := ∀ i j, i ≤ j → IsSome (s j) → IsSome (s i)
+
+/-- a thread that has seen the wrapped iterator fail to yield and is about to record it in `completed` -/
+def Pc.recording : Pc → Bool
+  | .setC .. | .unw .. => true
+  | _ => false
 
 structure Inv (s : Script) (c : Cfg) : Prop where
   todoOk : ∀ t, ∀ r ∈ (c.th t).todo, ReqOk r
@@ -53,9 +59,15 @@ structure Inv (s : Script) (c : Cfg) : Prop where
   pcs : ∀ t b n, (c.th t).pc.inCS = true → (c.th t).pc.ticket = some (b, n) → NoNoneBefore s c.P →
             c.P = b + (c.th t).pc.acc.length
   pidle : (∀ t, (c.th t).pc.inCS = false) → NoNoneBefore s c.P → c.P = c.Y
-  csLt : ∀ t r b acc, ((c.th t).pc = .cs r b acc ∨ (c.th t).pc = .ins r b acc) → acc.length < r.len
+  csLt : ∀ t r b acc, ((c.th t).pc = .cs r b acc ∨ (c.th t).pc = .ins r b acc ∨ (c.th t).pc = .setC r b acc) → acc.length < r.len
   pubFull : ∀ t r b acc, (c.th t).pc = .pub r b acc → NoNoneBefore s c.P → acc.length = r.len
-  setCNone : ∀ t r b, (c.th t).pc = .setC r b → ¬ NoNoneBefore s c.P
+  setCNone : ∀ t r b acc, (c.th t).pc = .setC r b acc → ¬ NoNoneBefore s c.P
+  /-- the wrapped iterator is only ever called while all its previous calls returned elements … -/
+  callOk : ∀ t r b acc, ((c.th t).pc = .cs r b acc ∨ (c.th t).pc = .ins r b acc) → NoNoneBefore s c.P
+  /-- … because a `None` (or a panic) is recorded in `completed` before the critical section is left -/
+  noneC : ¬ NoNoneBefore s c.P → c.C = true ∨ ∃ t, (c.th t).pc.recording = true
+  /-- a thread that has seen its turn come holds the ticket `yielded` points at -/
+  entY : ∀ t r b, (c.th t).pc = .ent r b → b = c.Y
 
 /-- C07 (mutual exclusion): two distinct threads are never both inside the critical section -/
 theorem mutex {s c} (h : Inv s c) (t u : Nat) (htu : t ≠ u)
@@ -94,16 +106,20 @@ structure SelfOk (s : Script) (c : Cfg) (t : Nat) (x' : Thread) (R' Y' P' : Nat)
         (∀ k (hk : k < x'.pc.acc.length), s (b + k) = .some (x'.pc.acc[k])) ∧ x'.pc.acc.length ≤ n ∧
         (x'.pc.inCS = true → NoNoneBefore s P' → P' = b + x'.pc.acc.length) ∧
         (∀ u b' n', u ≠ t → (c.th u).pc.ticket = some (b', n') → b + n ≤ b' ∨ b' + n' ≤ b)
-  csLt : ∀ r b acc, (x'.pc = .cs r b acc ∨ x'.pc = .ins r b acc) → acc.length < r.len
+  csLt : ∀ r b acc, (x'.pc = .cs r b acc ∨ x'.pc = .ins r b acc ∨ x'.pc = .setC r b acc) → acc.length < r.len
   pubFull : ∀ r b acc, x'.pc = .pub r b acc → NoNoneBefore s P' → acc.length = r.len
-  setCNone : ∀ r b, x'.pc = .setC r b → ¬ NoNoneBefore s P'
+  setCNone : ∀ r b acc, x'.pc = .setC r b acc → ¬ NoNoneBefore s P'
+  callOk : ∀ r b acc, (x'.pc = .cs r b acc ∨ x'.pc = .ins r b acc) → NoNoneBefore s P'
+  entY : ∀ r b, x'.pc = .ent r b → b = Y'
 
 theorem inv_update {s : Script} {c : Cfg} (h : Inv s c) (t : Nat) (x' : Thread) (R' Y' : Nat) (C' : Bool) (P' : Nat)
     (hyr : Y' ≤ R') (hR : c.R ≤ R')
     (hself : SelfOk s c t x' R' Y' P')
     (hoth : ∀ u b' n', u ≠ t → (c.th u).pc.ticket = some (b', n') → Y' ≤ b' ∧
               ((c.th u).pc.inCS = true → b' = Y' ∧ P' = c.P))
-    (hidle : x'.pc.inCS = false → (∀ u, u ≠ t → (c.th u).pc.inCS = false) → NoNoneBefore s P' → P' = Y') :
+    (hidle : x'.pc.inCS = false → (∀ u, u ≠ t → (c.th u).pc.inCS = false) → NoNoneBefore s P' → P' = Y')
+    (hnone : ¬ NoNoneBefore s P' → C' = true ∨ x'.pc.recording = true ∨ ∃ u, u ≠ t ∧ (c.th u).pc.recording = true)
+    (hent : ∀ u r b, u ≠ t → (c.th u).pc = .ent r b → b = Y') :
     Inv s (setTh { c with R := R', Y := Y', C := C', P := P' } t x') := by
   constructor
   · intro u
@@ -165,13 +181,32 @@ theorem inv_update {s : Script} {c : Cfg} (h : Inv s c) (t : Nat) (x' : Thread) 
       have hP := ((hoth u b r.len hu (by simp [hpc, Pc.ticket])).2 (by simp [hpc, Pc.inCS])).2
       rw [hP] at hnn
       exact h.pubFull u r b acc hpc hnn
-  · intro u r b
+  · intro u r b acc
     by_cases hu : u = t
-    · subst hu; simp; exact hself.setCNone r b
+    · subst hu; simp; exact hself.setCNone r b acc
     · simp [hu]; intro hpc hnn
       have hP := ((hoth u b r.len hu (by simp [hpc, Pc.ticket])).2 (by simp [hpc, Pc.inCS])).2
       rw [hP] at hnn
-      exact h.setCNone u r b hpc hnn
+      exact h.setCNone u r b acc hpc hnn
+  · intro u r b acc
+    by_cases hu : u = t
+    · subst hu; simp; exact hself.callOk r b acc
+    · simp [hu]; intro hpc
+      have hin : (c.th u).pc.inCS = true := by rcases hpc with h1 | h1 <;> simp [h1, Pc.inCS]
+      have htk : (c.th u).pc.ticket = some (b, r.len) := by rcases hpc with h1 | h1 <;> simp [h1, Pc.ticket]
+      have hP := ((hoth u b r.len hu htk).2 hin).2
+      rw [hP]
+      exact h.callOk u r b acc hpc
+  · intro hnn
+    simp at hnn ⊢
+    rcases hnone hnn with h1 | h1 | ⟨u, hu, h1⟩
+    · exact Or.inl h1
+    · exact Or.inr ⟨t, by simpa using h1⟩
+    · exact Or.inr ⟨u, by simpa [hu] using h1⟩
+  · intro u r b
+    by_cases hu : u = t
+    · subst hu; simp; exact hself.entY r b
+    · simp [hu]; exact hent u r b hu
 
 theorem cfg_eta (c : Cfg) : ({ c with R := c.R, Y := c.Y, C := c.C, P := c.P } : Cfg) = c := rfl
 
